@@ -243,6 +243,9 @@ func runMember(t *testing.T, c Case, seg int64, pre []int) (o obs, fail string) 
 		if c.Kind == "ads" {
 			p.ExtendAds(c.N)
 			chain = p.Chain
+		} else if c.Kind == "hamt" {
+			// generic nodes: no block hook can name the next CID, so only the explore-all selector finds them
+			chain = p.BuildGenericChain(c.N, 1)
 		} else {
 			chain = p.BuildEntries(c.N, 1)
 		}
@@ -537,7 +540,7 @@ func runCase(t *testing.T) func(Case) pbt.Result {
 	}
 }
 
-const rule = "base configuration: chain kind (ads via SyncAdChain or announce, entries via SyncEntries / SyncOneEntry / SyncHAMTEntries) x length 1..12 x initial latest-sync (none, SetLatestSync position, earlier real sync, WithLastKnownSync, head, off-chain) x stop CID (none, position, head, off-chain) x resync x explicit or queried head x AdsDepthLimit / EntriesDepthLimit / FirstSyncDepth / ScopedDepthLimit (unset, -1, 1..n+2) x plain or discovery transport; each base configuration is run as a family over segment sizes {disabled, 1, 3 drawn in 1..n+2} (subscriber-wide or per call) x pre-stored subsets {none, all, drawn, head only}; oracles: reference model of the expected block list (hooks in order, once each, right peer; blocks readable and hashing to their CID; returned head; latest-sync and exactly one event with the count, or unchanged and none), request log (block requests = expected list minus locally stored blocks, in order; head request iff queried), and identical observations across the family. Non-trivial: expected list >= 2 blocks and (cut by stop/depth, or segment smaller than the list, or something pre-stored); distinct by base configuration."
+const rule = "base configuration: chain kind (ads via SyncAdChain or announce, entries via SyncEntries / SyncOneEntry, a path of generic linked nodes via SyncHAMTEntries) x length 1..12 x initial latest-sync (none, SetLatestSync position, earlier real sync, WithLastKnownSync, head, off-chain) x stop CID (none, position, head, off-chain) x resync x explicit or queried head x AdsDepthLimit / EntriesDepthLimit / FirstSyncDepth / ScopedDepthLimit (unset, -1, 1..n+2) x plain or discovery transport; each base configuration is run as a family over segment sizes {disabled, 1, 3 drawn in 1..n+2} (subscriber-wide or per call) x pre-stored subsets {none, all, drawn, head only}; oracles: reference model of the expected block list (hooks in order, once each, right peer; blocks readable and hashing to their CID; returned head; latest-sync and exactly one event with the count, or unchanged and none), request log (block requests = expected list minus locally stored blocks, in order; head request iff queried), and identical observations across the family. Non-trivial: expected list >= 2 blocks and (cut by stop/depth, or segment smaller than the list, or something pre-stored); distinct by base configuration."
 
 var assumptions = []string{"strict ads selector (the default); the non-strict selector follows every link and is not modelled", "resync together with a queried head: latest-sync update is not asserted (documentation and code disagree)", "announce-triggered syncs announce the chain head"}
 
